@@ -531,7 +531,33 @@ def synthloc(repo, schema=None, sites=None):
                 "reports range errors at the expression's own source location without regard to is_synthetic: for a structure whose "
                 "synthesised `$size_in_bytes` overflows 64 bits the only diagnostics are located at `[compiler bug]`",
                 "compiler/front_end/constraints.py", f.line, act.name)
-    res.analysed = ["compiler/front_end/constraints.py", "compiler/front_end/synthetics.py"]
+    # (b) the default for a missing location keeps the is_synthetic flag: a synthetic location without coordinates is
+    # falsy, and a fresh (0,0) location would turn a deferred synthetic error into a user error at `file:0:0`
+    em = repo.mod("compiler/util/error.py")
+    lod = [f for f in em.top_funcs() if f.name == "location_or_default"]
+    if not lod:
+        raise AnalysisError("error.location_or_default not found")
+    res.instances += 1
+    made = [n for n in walk_no_nested_funcs(lod[0].node) if isinstance(n, ast.Call) and (call_name(n) or "").endswith("SourceLocation")]
+    if made and not all(any(k.arg == "is_synthetic" and "location" in ast.unparse(k.value) for k in c.keywords) for c in made):
+        res.add("compiler/util/error.py|location_or_default|drops-synthetic", "location_or_default builds a fresh SourceLocation for a "
+                "falsy location without carrying over its is_synthetic flag: synthetic locations without coordinates (aliases of "
+                "anonymous bits) become user-visible errors at `file.emb:0:0`", em.rel, lod[0].node.lineno, "location_or_default")
+    # (c) objects named by dependency-cycle nodes include synthesized fields ($size_in_bytes, ...) that have no location:
+    # the cycle report must not use `<object>.source_location` directly
+    dc = repo.mod("compiler/front_end/dependency_checker.py")
+    fc = [f for f in dc.top_funcs() if f.name == "_find_object_dependency_cycles"]
+    if not fc:
+        raise AnalysisError("dependency_checker._find_object_dependency_cycles not found")
+    for n in walk_no_nested_funcs(fc[0].node):
+        if isinstance(n, ast.Call) and (call_name(n) or "") in ("error.error", "error.note") and len(n.args) >= 2:
+            res.instances += 1
+            a = n.args[1]
+            if isinstance(a, ast.Attribute) and a.attr == "source_location":
+                res.add(f"{dc.rel}|_find_object_dependency_cycles|bare-location", f"a dependency cycle member is reported at "
+                        f"`{ast.unparse(a)}`; synthesized fields ($size_in_bytes in `if $size_in_bytes > 10:`) have no location, so "
+                        "the cycle is printed at `file.emb:0:0`", dc.rel, n.lineno, fc[0].name)
+    res.analysed = ["compiler/front_end/constraints.py", "compiler/front_end/synthetics.py", em.rel, dc.rel]
     return res
 
 
